@@ -44,7 +44,16 @@ func parseInstanceNumber(text string) any {
 }
 
 // resetPools gives the library and the shim fresh, empty pools.
+// sentinelDamage remembers the last modification of the library's shared "valid" result that a reset
+// had to undo (checks that care report it; every reset restores the object so that executions stay
+// independent of each other).
+var sentinelDamage string
+
 func resetPools() {
+	if d := validate.VerifSentinelState(); d != "" {
+		sentinelDamage = d
+		validate.VerifRestoreSentinel()
+	}
 	validate.VerifResetPools()
 	verifrt.DropAllPools()
 }
